@@ -4,6 +4,7 @@ prefix (C13) are added to the same driver.
 -/
 import Ufw.Model.Slip
 import Ufw.Spec.Slip
+import Ufw.Model.Endpoints
 import Driver.Loop
 
 open Ufw
@@ -113,9 +114,116 @@ def slipLine (toks : List String) : String :=
     | _, _, _ => "bad-op"
   | _ => "bad-op"
 
+/-! ### endpoints (C17) -/
+
+namespace EP
+open Ufw.Model.Endpoints
+
+def parseStep (t : String) : Option Step :=
+  if t == "z" then some .zero
+  else if t == "i" then some .eintr
+  else if t == "a" then some .eagain
+  else if t.startsWith "k" then (t.drop 1).toString.toNat?.map .xfer
+  else if t.startsWith "h:" then (Err.ofName (t.drop 2).toString).map .hard
+  else none
+
+def parseScript (s : String) : Option (List Step) :=
+  if s == "-" then some [] else (s.splitOn ",").mapM parseStep
+
+def parseKind : String → Option Kind
+  | "o" => some .octet | "c" => some .chunk | _ => none
+
+def rStr (strict : Bool) : R → String
+  | .ok n => s!"ok:{n}"
+  | .err e => (if strict then "ERR:" else "err:") ++ e.name
+  | .diverge => "diverge"
+
+/-- errors a driver script can raise are returned unchanged (strict); EINVAL/ENODATA too -/
+def fuelFor (script : List Step) (n : Nat) : Nat := 2 * (script.length + n) + 4
+
+def line (toks : List String) : String :=
+  match toks with
+  | ["ep.get", kind, stream, script, n] | ["ep.getmost", kind, stream, script, n] =>
+    match parseKind kind, parseHex stream, parseScript script, n.toNat? with
+    | some k, some st, some sc, some n =>
+      let src : Src := { kind := k, stream := st, script := sc }
+      let fuel := fuelFor sc n
+      let most := toks.head! == "ep.getmost"
+      let (r, d, s') := if most then source_get_chunk_atmost fuel src n else source_get_chunk fuel src n
+      let consumed := st.length - s'.stream.length
+      let dataOk := match r with | .ok m => hexOf (d.take m) | _ => "-"
+      let spec := match r with
+        | .ok m => s!"ok:{m} data={hexOf (st.take m)}"
+        | r => s!"{rStr true r} data=-"
+      s!"{rStr true r} data={dataOk} consumed={consumed} ## {spec}"
+    | _, _, _, _ => "bad-op"
+  | ["ep.put", kind, script, data] | ["ep.putmost", kind, script, data] =>
+    match parseKind kind, parseScript script, parseHex data with
+    | some k, some sc, some d =>
+      let snk : Ufw.Model.Endpoints.Snk := { kind := k, script := sc }
+      let fuel := fuelFor sc d.length
+      let most := toks.head! == "ep.putmost"
+      let (r, s') := if most then sink_put_chunk_atmost fuel snk d else sink_put_chunk fuel snk d
+      let spec := match r with
+        | .ok m => s!"ok:{m} got={hexOf (d.take m)}"
+        | r => s!"{rStr true r} prefix={decide (s'.got.isPrefixOf d)}"
+      let view := match r with
+        | .ok _ => s!"{rStr true r} got={hexOf s'.got}"
+        | r => s!"{rStr true r} prefix={decide (s'.got.isPrefixOf d)}"
+      s!"{view} gotraw={hexOf s'.got} ## {spec}"
+    | _, _, _ => "bad-op"
+  | ["ep.big", what, kind] =>
+    match parseKind kind with
+    | some k =>
+      let n := 2 ^ 63
+      if what == "get" then
+        let (r, _, s') := source_get_chunk 8 { kind := k, stream := [1#8, 2#8], script := [] } n
+        s!"{rStr true r} calls={s'.calls}"
+      else
+        -- a put of more than SSIZE_MAX octets is refused before the driver is called
+        s!"ERR:einval calls=0"
+    | none => "bad-op"
+  | ["sts", fn, skind, stream, sscript, kkind, kscript, n, asize, aused, aoff] =>
+    match parseKind skind, parseHex stream, parseScript sscript, parseKind kkind, parseScript kscript,
+          n.toNat?, asize.toNat?, aused.toNat?, aoff.toNat? with
+    | some sk, some st, some ssc, some kk, some ksc, some n, some asize, some aused, some aoff =>
+      let src : Src := { kind := sk, stream := st, script := ssc }
+      let snk : Ufw.Model.Endpoints.Snk := { kind := kk, script := ksc }
+      let aux : Aux := { mem := List.replicate asize 0xee#8, used := aused, offset := aoff }
+      let fuel := 2 * (ssc.length + ksc.length + st.length + n) + 8
+      let res : Option (R × Src × Ufw.Model.Endpoints.Snk × Aux) :=
+        match fn with
+        | "cbc" => let (r, a, b) := sts_cbc src snk; some (r, a, b, aux)
+        | "n_cbc" => let (r, a, b) := sts_n_cbc n src snk n; some (r, a, b, aux)
+        | "drain_cbc" => let (r, a, b) := sts_drain_cbc fuel src snk; some (r, a, b, aux)
+        | "n" => let (r, a, b) := sts_n fuel src snk n n; some (r, a, b, aux)
+        | "drain" => let (r, a, b) := sts_drain fuel src snk; some (r, a, b, aux)
+        | "some_aux" => some (sts_some_aux fuel src snk aux (aux.used - aux.offset))
+        | "atmost_aux" => some (sts_atmost_aux fuel src snk aux n)
+        | "n_aux" => some (sts_n_aux fuel src snk aux n n)
+        | "drain_aux" => some (sts_drain_aux fuel src snk aux asize)
+        | _ => none
+      match res with
+      | none => "bad-op"
+      | some (r, src', snk', aux') =>
+        let consumed := st.length - src'.stream.length
+        -- designated region of the auxiliary buffer: [0, used-offset) once rewound, else [offset, used)
+        let outside := (List.range asize).all fun i =>
+          (aux.offset ≤ i ∧ i < aux.used) ∨ (i < aux.used - aux.offset ∧ (fn == "n_aux" ∨ fn == "drain_aux")) ∨
+            aux'.mem[i]? == some 0xee#8
+        let pre := decide (snk'.got.isPrefixOf st)
+        s!"{rStr true r} got={hexOf snk'.got} consumed={consumed} ## {rStr true r} prefix={pre} auxclean={outside}"
+    | _, _, _, _, _, _, _, _, _ => "bad-op"
+  | _ => "bad-op"
+
+end EP
+
 def stepLine (_ : Unit) (toks : List String) : Unit × String :=
   ((), match toks with
-  | t :: rest => if t.startsWith "slip." then slipLine (t :: rest) else "bad-op"
+  | t :: rest =>
+    if t.startsWith "slip." then slipLine (t :: rest)
+    else if t.startsWith "ep." || t == "sts" then EP.line (t :: rest)
+    else "bad-op"
   | _ => "bad-op")
 
 end Driver.Streams
